@@ -472,9 +472,58 @@ SPECS = [(r, c) for c in H_CODES for r in H_ROUTES] + [("int", 32633)]
 MAX_HANDLES = 3
 
 
+# The CRS caches are module-level state of odc/geo/crs.py. They are found by INTROSPECTION (every module-level mutable
+# mapping with a private name, and every `.cache` mapping of a module-level function, e.g. a cachetools wrapper), not by
+# name, so that renaming them, replacing cachetools by a hand-written dict, or nesting the transformer cache differently
+# does not break the harness. What the invariants read from them is structure-agnostic as well: the set of keys
+# (recursively, through nested mappings) and the integers in those keys that are ids of pyproj objects we track.
+from collections.abc import MutableMapping  # noqa: E402
+
+
+def _cache_containers():
+    out = {}
+    for name, obj in vars(crsmod).items():
+        if isinstance(obj, MutableMapping) and name.startswith("_") and not name.startswith("__"):
+            out[name] = obj
+        elif callable(obj) and getattr(obj, "__module__", None) == crsmod.__name__:
+            c = getattr(obj, "cache", None)
+            if isinstance(c, MutableMapping):
+                out[f"{name}.cache"] = c
+    if not out:
+        raise e1.HarnessError("no module-level cache found in odc.geo.crs: the CRS cache histories cannot be reset")
+    return out
+
+
+def _walk_keys(m, depth=0):
+    """every key of a (possibly nested) mapping, outermost first"""
+    for k, v in list(m.items()):
+        yield k
+        if isinstance(v, MutableMapping) and depth < 3:
+            yield from _walk_keys(v, depth + 1)
+
+
+def _ints_in(k):
+    if isinstance(k, bool):
+        return
+    if isinstance(k, int):
+        yield k
+    elif isinstance(k, (tuple, list, frozenset)):
+        for x in k:
+            yield from _ints_in(x)
+
+
+def _cache_ids():
+    """all integers that occur inside keys of the caches (ids of pyproj objects, for id-keyed designs)"""
+    out = set()
+    for c in _cache_containers().values():
+        for k in _walk_keys(c):
+            out.update(x for x in _ints_in(k) if x > 4096)
+    return out
+
+
 def _clear_caches():
-    crsmod._crs_cache.clear()
-    crsmod._make_crs_transform.cache.clear()
+    for c in _cache_containers().values():
+        c.clear()
 
 
 def observe(c: CRS):
@@ -513,7 +562,7 @@ class World:
         _clear_caches()
         gc.collect()
         self.handles = []  # (spec, CRS)
-        self.weak = {}  # transformer key -> (weakref src pyproj, weakref dst pyproj)
+        self.weak = {}  # id of a pyproj object that took part in a transformer request -> weakref to it
         self.errors = []
         for ev in hist:
             self.apply(ev, hist)
@@ -552,40 +601,43 @@ class World:
             if not (np.array_equal(got[0], want[0], equal_nan=True) and np.array_equal(got[1], want[1], equal_nan=True)):
                 self.errors.append((f"transformer:wrong-pair:{sa[1]}->{sb[1]}",
                                     f"transformer_to_crs {sa}->{sb} after {list(hist)} maps probe to {got}, fresh pyproj {want}"))
-            key = crsmod._make_crs_transform_key(a._crs, b._crs, True)
-            self.weak.setdefault(key, (weakref.ref(a._crs), weakref.ref(b._crs)))
+            for o in (a._crs, b._crs):
+                self.weak.setdefault(id(o), weakref.ref(o))
         else:
             raise ValueError(ev)
 
     def invariant(self):
         out = list(self.errors)
-        for key in crsmod._make_crs_transform.cache:
-            w = self.weak.get(key)
-            if w is None:
-                continue
-            if w[0]() is None or w[1]() is None:
+        for i in sorted(_cache_ids()):
+            w = self.weak.get(i)
+            if w is not None and w() is None:
                 out.append(("transformer-cache:dead-object-id",
-                            f"transformer cache entry {key} is keyed by the id of a pyproj object that has been "
-                            f"garbage collected (the id can be reused by another CRS)"))
+                            f"a cache entry is keyed by {i}, the id of a pyproj object that took part in a transformer request "
+                            f"and has since been garbage collected (the id can be reused by another CRS)"))
         return out
 
     def key(self):
-        ck = tuple(sorted(_kstr(k) for k in crsmod._crs_cache))
         hk = tuple(s for s, _ in self.handles)
-        # transformer keys expressed through the handles / cache entries they refer to
+        # ids occurring in cache keys are expressed through the handles / cached values they refer to
         ids = {}
         for n, (s, c) in enumerate(self.handles):
             ids.setdefault(id(c._crs), f"h{n}")
-        for k, v in crsmod._crs_cache.items():
-            ids.setdefault(id(v[0]), f"c:{_kstr(k)}")
+        conts = _cache_containers()
+        for c in conts.values():
+            for k, v in list(c.items()):
+                for o in (v if isinstance(v, tuple) else (v,)):
+                    if isinstance(o, pyproj.CRS):
+                        ids.setdefault(id(o), f"c:{_kstr(k)}")
+
         def lab(k):
             if isinstance(k, tuple):
-                return tuple(ids.get(x, "dead-or-unknown-id") if isinstance(x, int) and not isinstance(x, bool) and x > 4096
-                             else x for x in k)
-            return repr(k)
+                return "(" + ",".join(lab(x) for x in k) + ")"
+            if isinstance(k, int) and not isinstance(k, bool) and k > 4096:
+                return ids.get(k, "dead-or-unknown-id")
+            return _kstr(k)
 
-        tk = tuple(sorted(map(repr, (lab(k) for k in crsmod._make_crs_transform.cache))))
-        return (ck, hk, tk)
+        ck = tuple((name, tuple(sorted(lab(k) for k in _walk_keys(c)))) for name, c in sorted(conts.items()))
+        return (ck, hk)
 
 
 def _kstr(k):
@@ -712,18 +764,19 @@ def run_pressure(case):
     A.transformer_to_crs(B)
     if both:
         B.transformer_to_crs(A)
-    keys = [crsmod._make_crs_transform_key(A._crs, B._crs, True)]
+    ids_ab = [id(A._crs), id(B._crs)]
     refs = [weakref.ref(A._crs), weakref.ref(B._crs)]
     for spec in pressure_specs(k):
         CRS(spec)
     del A, B
     gc.collect()
     dead = [i for i, w in enumerate(refs) if w() is None]
-    still_keyed = [kk for kk in keys if kk in crsmod._make_crs_transform.cache]
+    present = _cache_ids()
+    still_keyed = [ids_ab[i] for i in dead if ids_ab[i] in present]
     if dead and still_keyed:
         r.fail("transformer-cache:dead-object-id:after-cache-pressure",
                f"after {k} further CRS constructions, dropping the handles and gc, the pyproj object(s) {dead} whose id keys "
-               f"transformer cache entry {still_keyed[0]} have been freed: the id can be reused by another CRS and the stale "
+               f"a cache entry (id {still_keyed[0]}) have been freed: the id can be reused by another CRS and the stale "
                f"transformer served for it (history: new {a_spec}, new {b_spec}, transformer, {k} x new tmerc strip, drop, gc)")
     A2, B2 = crs_by_route(*a_spec), crs_by_route(*b_spec)
     x, y = _PROBE if a_spec[1] == 4326 else _PROBE_M
